@@ -351,6 +351,88 @@ def _jacobian_rows(prog, rep):
             _binop_row(rep, m, prog)
 
 
+def _scaled_pattern_by_scenario(prog, rep, sp):
+    """`_is_scaled_variable_pattern(row, variables)` may answer (scale, True) only if EVERY entry i is c * variables[i]
+    (either operand order) with one common c.  One representative entry is walked under scenarios:
+      ok     : entry = Constant(c) * variables[i], same c as before   -> the loop goes on
+      other  : entry = Constant(c) * <a variable that is not variables[i]>  -> must return None
+      scale  : entry = Constant(c') * variables[i] with c' != scale         -> must return None
+      shape  : entry is not a product / has no Constant factor              -> must return None
+    Returns the set of pinned check names that this walk decided."""
+    from ..symexec import SymWalker, is_none_node
+
+    row_p, vars_p = [a.arg for a in sp.node.args.args][:2]
+    loops = [n for n in walk_local(sp.node) if isinstance(n, ast.For) and row_p in {x.id for x in ast.walk(n.iter) if isinstance(x, ast.Name)}]
+    if len(loops) != 1:
+        rep.undecided("_is_scaled_variable_pattern: loop over the Jacobian row not found")
+        return set()
+    loop = loops[0]
+    tnames = [x.id for x in ast.walk(loop.target) if isinstance(x, ast.Name)]
+    zipped = isinstance(loop.iter, ast.Call) and any(dotted(c.func) == "zip" for c in ast.walk(loop.iter) if isinstance(c, ast.Call)) and vars_p in src(loop.iter)
+
+    def run(kind):
+        def facts(t):
+            text = src(t)
+            if isinstance(t, ast.Call) and dotted(t.func) == "isinstance" and len(t.args) == 2:
+                what, ks = src(t.args[0]), src(t.args[1])
+                if what.endswith(".left"):
+                    return ("Constant" in ks) if kind != "shape" else False
+                if what.endswith(".right"):
+                    return ("Variable" in ks and "Constant" not in ks) if kind != "shape" else False
+                if "BinaryOp" in ks:
+                    return kind != "shape"
+                return None
+            if isinstance(t, ast.Compare) and len(t.ops) == 1:
+                l, r, op = src(t.left), src(t.comparators[0]), t.ops[0]
+                if l.endswith(".op") and isinstance(t.comparators[0], ast.Constant):
+                    hit = t.comparators[0].value == "*" and kind != "shape"
+                    return hit if isinstance(op, ast.Eq) else (not hit) if isinstance(op, ast.NotEq) else None
+                if isinstance(op, (ast.Is, ast.IsNot)) and (l.endswith(".right") or r.endswith(".right")) and "None" not in (l, r):
+                    same = kind != "other"
+                    return same if isinstance(op, ast.Is) else (not same)
+                if isinstance(op, (ast.Is, ast.IsNot)) and (l.endswith(".left") or r.endswith(".left")) and "None" not in (l, r):
+                    return isinstance(op, ast.IsNot)        # the variable is the right operand in these scenarios
+                if "PREV" in (l, r) and "None" in (l, r):
+                    v = False                                # a scale was fixed by an earlier entry
+                    return v if isinstance(op, (ast.Is, ast.Eq)) else (not v)
+                if "PREV" in (l, r) and isinstance(op, (ast.Eq, ast.NotEq)):
+                    same = kind != "scale"
+                    return same if isinstance(op, ast.Eq) else (not same)
+                if l.startswith("len(") and r.startswith("len("):
+                    return isinstance(op, ast.Eq)
+            return None
+
+        # the running scale: a local that is None before the loop and assigned inside it; an earlier entry fixed it
+        la = local_assignments(sp.node)
+        inside = {x.id for x in ast.walk(loop) if isinstance(x, ast.Name) and isinstance(x.ctx, ast.Store)}
+        running = [nm for nm, vals in la.items() if nm in inside and any(isinstance(v, ast.Constant) and v.value is None for v in vals)]
+        bind = {nm: ast.Name(id="PREV", ctx=ast.Load()) for nm in running} or {"_": ast.Constant(value=None)}
+        w = SymWalker(prog, sp.module, facts, lambda st, env: (dict(bind) if st is loop else None), non_none=("PREV",))
+        vals = w.returns(sp, {})
+        return {("None" if is_none_node(v) else "answer") for v in vals}, w
+
+    decided = set()
+    try:
+        ok_, _w = run("ok")
+        other, _w = run("other")
+        scale, _w = run("scale")
+        shape, _w = run("shape")
+    except Exception as e:
+        rep.undecided(f"_is_scaled_variable_pattern: symbolic walk failed ({type(e).__name__})")
+        return decided
+    if "answer" not in ok_:
+        rep.undecided("_is_scaled_variable_pattern: the accepting path was not found by the walk")
+        return decided
+    loc = sp.loc
+    rep.ob("R03.5", "_is_scaled_variable_pattern", other == {"None"}, "an entry c * v is accepted only if v is the variable of that column" if other == {"None"} else "the scaled-row fast path accepts an entry c * v although v is not the variable of that column (position-by-position check missing): a row such as [2*y, 2*x] over (x, y) is compiled as 2*x", loc=loc, detail="position-by-position", robust=True)
+    rep.ob("R03.5", "_is_scaled_variable_pattern", scale == {"None"}, "all entries must carry the same scale" if scale == {"None"} else "the scaled-row fast path accepts entries with different scales", loc=loc, detail="common-scale", robust=True)
+    rep.ob("R03.5", "_is_scaled_variable_pattern", shape == {"None"}, "entries of any other shape make the pattern fail" if shape == {"None"} else "the scaled-row fast path accepts an entry that is not Constant * variable", loc=loc, detail="non-matching=>None", robust=True)
+    decided |= {"position-by-position", "common-scale", "non-matching=>None", "constant-factor"}
+    if not zipped:
+        pass
+    return decided
+
+
 ROW_SPECS = {
     # kind: (containers, {scenario: expected entry}); scenarios are tuples of membership bits in container order
     "VectorSum": (["self.vector._variables"], {(True,): ["Constant(1.0)"], (False,): ["Constant(0.0)"]}),
@@ -623,7 +705,10 @@ def _fast_paths(prog, rep):
         "constant-factor": Frag(t, "isinstance(expr.left, Constant)", "isinstance(expr.right, Constant)"),
         "non-matching=>None": t.count("return None") >= 4,
     }
+    sem = _scaled_pattern_by_scenario(prog, rep, sp)
     for k, v in checks.items():
+        if k in sem:
+            continue        # decided by the scenario walk
         rep.pin('compile_jacobian fast paths', "R03.5", "_is_scaled_variable_pattern", v, f"{k} is required" if v else f"the scaled-row fast path does not check: {k}", loc=sp.loc, detail=k)
     use = Frag(s, "if m == 1:", "pattern = _is_scaled_variable_pattern(jacobian_exprs[0], variables)", "return (scale * x).reshape(1, -1)")
     rep.pin('compile_jacobian fast paths', "R03.5", "compile_jacobian", use, "scaled-row closure is scale * x for a single row matching the pattern" if use else "the scaled-row closure is not `scale * x` under m == 1 and a matched pattern", loc=cj.loc, detail="scaled-closure")
